@@ -318,6 +318,7 @@ func (r *run) newServer() *dns.Server {
 		NotifyStartedFunc: func() { r.log.Point("srv.started") },
 		DecorateReader:    func(rd dns.Reader) dns.Reader { return &spyReader{Reader: rd, r: r} },
 		DecorateWriter:    func(w dns.Writer) dns.Writer { return spyWriter{w, r} },
+		MaxTCPQueries:     r.s.MaxTCP,
 	}
 	return srv
 }
@@ -665,6 +666,13 @@ func (r *run) execute() (err error) {
 	ctx, cancel := context.WithCancel(context.Background())
 	defer cancel()
 
+	// --- misuse: a start that fails, then Shutdown, then (below) the real start on the same value
+	if m, ok := r.hasMisuse("failedStart"); ok {
+		if e := r.failedStart(m.At); e != nil {
+			return e
+		}
+	}
+
 	// --- misuse: Shutdown before the server was ever started
 	if _, ok := r.hasMisuse("shutdownBeforeStart"); ok {
 		var e error
@@ -685,8 +693,11 @@ func (r *run) execute() (err error) {
 		r.log.Point("serve.return(" + errTag(e) + ")")
 		close(serveDone)
 	}()
-	if !r.log.WaitFor("srv.started", watchdog()) {
+	if r.log.WaitAny(watchdog(), "srv.started", "serve.return(*)") < 0 {
 		return r.hang("ActivateAndServe (never reported started)")
+	}
+	if !r.log.Has("srv.started") {
+		return r.fail("I4/I5: ActivateAndServe on a fresh transport returned instead of serving: %s", r.log.Names()[r.log.Index("serve.return(*)")])
 	}
 
 	// --- clients
@@ -1022,6 +1033,91 @@ func (r *run) invariants() error {
 	return nil
 }
 
+// failedStart makes one start attempt that must fail, checks that it returns an error instead of
+// blocking, that a following Shutdown returns at once (the "server not started" error when the
+// server never began to serve), and leaves the Server value ready for the real start.
+func (r *run) failedStart(kind string) error {
+	srv := r.srv
+	savedL, savedP, savedNotify := srv.Listener, srv.PacketConn, srv.NotifyStartedFunc
+	srv.Listener, srv.PacketConn = nil, nil
+	srv.NotifyStartedFunc = func() { r.log.Add("failedstart.serving") }
+	var holder interface{ Close() error }
+	listen := false
+	switch kind {
+	case "closedUDP":
+		pc, err := net.ListenPacket("udp", "127.0.0.1:0")
+		if err != nil {
+			return nil
+		}
+		pc.Close()
+		srv.PacketConn = pc
+	case "closedListener":
+		l, err := net.Listen("tcp", "127.0.0.1:0")
+		if err != nil {
+			return nil
+		}
+		l.Close()
+		srv.Listener = l
+	case "nilListeners":
+	case "badAddrTCP":
+		listen, srv.Net, srv.Addr = true, "tcp", "127.0.0.1:99999"
+	case "badAddrUDP":
+		listen, srv.Net, srv.Addr = true, "udp", "127.0.0.1:99999"
+	case "badNet":
+		listen, srv.Net, srv.Addr = true, "bogus", "127.0.0.1:0"
+	case "tlsNoCert":
+		listen, srv.Net, srv.Addr = true, "tcp-tls", "127.0.0.1:0"
+	case "portInUseTCP":
+		l, err := net.Listen("tcp", "127.0.0.1:0")
+		if err != nil {
+			return nil
+		}
+		holder = l
+		listen, srv.Net, srv.Addr = true, "tcp", l.Addr().String()
+	case "portInUseUDP":
+		pc, err := net.ListenPacket("udp", "127.0.0.1:0")
+		if err != nil {
+			return nil
+		}
+		holder = pc
+		listen, srv.Net, srv.Addr = true, "udp", pc.LocalAddr().String()
+	default:
+		return fmt.Errorf("unknown failedStart kind %q", kind)
+	}
+	var startErr, sdErr error
+	r.log.Add("misuse.failedStart(" + kind + ").call")
+	okStart := within(watchdog(), func() {
+		if listen {
+			startErr = srv.ListenAndServe()
+		} else {
+			startErr = srv.ActivateAndServe()
+		}
+	})
+	if holder != nil {
+		holder.Close()
+	}
+	if !okStart {
+		return r.hangOpt("a start that cannot succeed ("+kind+")", false)
+	}
+	r.log.Add("misuse.failedStart.return(" + errTag(startErr) + ")")
+	if startErr == nil {
+		return r.fail("I5: start with %s returned nil", kind)
+	}
+	served := r.log.Has("failedstart.serving")
+	if !within(watchdog(), func() { sdErr = srv.Shutdown() }) {
+		return r.hangOpt("Shutdown after a failed start ("+kind+": "+startErr.Error()+")", false)
+	}
+	r.log.Add("misuse.failedStart.shutdown(" + errTag(sdErr) + ")")
+	// a server whose start failed before it began to serve is not started; one whose serve loop
+	// ended with an error may still count as started until Shutdown is called (then nil is fine)
+	if !isNotStarted(sdErr) && !(served && sdErr == nil) {
+		return r.fail("I5: Shutdown after a failed start (%s: %v) returned %v, want the 'server not started' error", kind, startErr, sdErr)
+	}
+	srv.Net, srv.Addr = "", ""
+	srv.Listener, srv.PacketConn, srv.NotifyStartedFunc = savedL, savedP, savedNotify
+	return nil
+}
+
 // connsLeft returns the number of connections the server still tracks (Server.conns, read by
 // reflection; 0 when the field does not exist). Only meaningful once the server is quiescent.
 func connsLeft(srv *dns.Server) int {
@@ -1171,6 +1267,12 @@ func (r *run) classes() []string {
 	cl := []string{"transport=" + s.Transport, "ctx=" + s.Ctx}
 	for _, m := range s.Misuse {
 		cl = append(cl, "misuse="+m.Op)
+		if m.Op == "failedStart" {
+			cl = append(cl, "failedStart="+m.At)
+		}
+	}
+	if s.stream() {
+		cl = append(cl, fmt.Sprintf("maxTCP=%d", s.MaxTCP))
 	}
 	pipe, part := false, false
 	for _, c := range s.Clients {
@@ -1187,6 +1289,14 @@ func (r *run) classes() []string {
 		if n == "alien.request" || n == "alien.reply" {
 			cl = append(cl, "alien-traffic-ignored")
 			break
+		}
+	}
+	for _, n := range names {
+		if n == "failedstart.serving" {
+			cl = append(cl, "failedStart-serve-loop-ended-with-error")
+		}
+		if n == "misuse.failedStart.shutdown(nil)" {
+			cl = append(cl, "failedStart-shutdown-nil")
 		}
 	}
 	call := -1
